@@ -212,6 +212,15 @@ def _self_mutations(fnode):
     return out
 
 
+def _anc_of(n):
+    out = []
+    n = getattr(n, '_parent', None)
+    while n is not None:
+        out.append(n)
+        n = getattr(n, '_parent', None)
+    return out
+
+
 def r3_check_before_commit(rep, src, M):
     m0 = src.mod('deb822')
     f = m0.method('Deb822', '__setitem__')          # the method a paragraph really runs: the override, or the inherited one
@@ -249,6 +258,31 @@ def r3_check_before_commit(rep, src, M):
     else:
         rep.fail('C08.R3', f.site, 'validate before store', 'line %d (%s) changes the paragraph without the value having been validated first: %s'
                  % (first_bad[0].lineno, first_bad[1], 'a rejected assignment leaves that change behind' if vcalls else 'the value is stored unvalidated'), where=f.where)
+    # the validator's verdict reaches the caller: no assignment to a field of self (which runs the validator) sits in a try block whose
+    # handlers catch ValueError -- a handler written for another failure of the same block would answer for the validator
+    m1 = src.mod('deb822')
+    n_st = 0
+    for cname in m1.mro('Deb822'):
+        for q, fn in sorted(m1.funcs.items()):
+            if not q.startswith(cname + '.') or '.' in q[len(cname) + 1:]:
+                continue
+            for st in ast.walk(fn.node):
+                if not (isinstance(st, ast.Assign) and any(isinstance(t_, ast.Subscript) and norm(t_.value) == 'self' for t_ in st.targets)):
+                    continue
+                n_st += 1
+                caught = [a_ for a_ in _anc_of(st) if isinstance(a_, ast.Try) and st in list(ast.walk(ast.Module(body=a_.body, type_ignores=[])))
+                          and any(h_.type is None or any(nm in norm(h_.type) for nm in ('ValueError', 'Exception')) for h_ in a_.handlers)]
+                if caught:
+                    h_ = [h_ for h_ in caught[0].handlers if h_.type is None or any(nm in norm(h_.type) for nm in ('ValueError', 'Exception'))][0]
+                    reraises = any(isinstance(x_, ast.Raise) and x_.exc is None for x_ in h_.body)
+                    if not reraises:
+                        rep.fail('C08.R3', fn.site, 'rejections reach the caller as raised: `%s`' % norm(st)[:40], 'the assignment at line %d runs the validator inside a try block whose handler '
+                                 '(line %d) catches ValueError for another purpose: a rejected value is answered by that handler (another message, or another exception when the handler '
+                                 'itself fails) instead of the validator\'s ValueError' % (st.lineno, h_.lineno), where='%s:%d' % (fn.module.relpath, st.lineno))
+                        continue
+                rep.ok('C08.R3', fn.site, 'rejections reach the caller as raised: `%s`' % norm(st)[:40], 'not inside a handler for ValueError', nontrivial=False)
+    if n_st < 2:
+        raise AnalysisError('only %d field assignments to self found in the Deb822 hierarchy' % n_st)
     # every raise of the validator is ValueError
     fv = src.func('deb822:Deb822.validate_input')
     bad = [r for r in ast.walk(fv.node) if isinstance(r, ast.Raise) and (r.exc is None or not norm(r.exc).startswith('ValueError'))]
